@@ -245,3 +245,10 @@ package protocol
 //@   requires #recv: p != nil
 //@   ensures #kind: result != nil && fresh(result) && result.kind == "dm.putentry"
 //@   modifies nothing
+
+//@ func (d *Del) Command(ctx context.Context) *redis.IntCmd
+//@   props C15
+//@   trusted
+//@   requires #recv: d != nil
+//@   ensures #nonnil: result != nil && fresh(result)
+//@   modifies nothing
